@@ -186,6 +186,7 @@ Section Hides.
     | FDual => true
     | FTable p _ => path_hides names p
     | FTableFn _ p _ => path_hides names p
+    | FSel _ _ => false              (* a selector as table name: outside this fragment *)
     | FDerived q _ => deep q
     | FJoin _ _ l r _ => from_hides l && from_hides r
     end.
@@ -221,6 +222,7 @@ Fixpoint from_avoids (names : list string) (f : from_clause stmt) : bool :=
   | FDual | FTableFn _ _ _ => true
   | FTable [] _ => true
   | FTable (k :: _) _ => negb (mem_str k names)
+  | FSel _ _ => false                (* a selector as table name: outside this fragment *)
   | FDerived _ _ => false
   | FJoin _ _ l r _ => from_avoids names l && from_avoids names r
   end.
